@@ -68,3 +68,12 @@ V('C20', 'neg-rename-local', F, VIS,
 V('C20', 'neg-extra-comment-and-blank', F, SE,
   '    visiting: OrderedSet[K] = OrderedSet()\n',
   '    # bookkeeping\n\n    visiting: OrderedSet[K] = OrderedSet()\n', None)
+
+V('C20', 'entry-defaults-by-truthiness', 'edb/common/topological.py', 'edb.common.topological.DepGraphEntry.__init__',
+  '        if deps is None:\n            deps = set()\n        self.deps = deps\n', '        self.deps = deps or set()\n', 'C20.R6', 'deps-kept')
+V('C20', 'inheritance-sort-direct-bases', 'edb/schema/delta.py', 'edb.schema.delta.sort_by_inheritance',
+  'deps=ordered.OrderedSet(x.get_ancestors(schema).objects(schema)),', 'deps=ordered.OrderedSet(x.get_bases(schema).objects(schema)),', 'C20.R6', 'sort_by_inheritance:transitive')
+V('C20', 'loop-control-edge-dropped', 'edb/edgeql/declarative.py', 'edb.edgeql.declarative._register_item',
+  '        parent_node.loop_control.add(fq_name)\n', '        parent_node.loop_control.add(fq_name)\n        deps.discard(loop_control)\n', 'C20.R6', 'hard-deps-only-grow')
+V('C20', 'neg-entry-default-restructured', 'edb/common/topological.py', 'edb.common.topological.DepGraphEntry.__init__',
+  '        if deps is None:\n            deps = set()\n        self.deps = deps\n', '        self.deps = set() if deps is None else deps\n', None)
